@@ -102,7 +102,7 @@ class C03(Prop):
         return steps
 
     def generate(self, rng, tier):
-        n = 800 if tier == "quick" else 20000
+        n = 1300 if tier == "quick" else 20000
         out = []
         for _ in range(n):
             t = X.gen_tree(rng, rng.choice([1, 2, 3]), root="dict")
